@@ -82,6 +82,7 @@ class C02(Check):
         self.roundtrip_bad = []
         self._find_n = 0
         self.tok_cmp = 0
+        self.lex_cmp = 0
         self.tok_bad = []
 
     # ------------------------------------------------------------ generation
@@ -226,6 +227,13 @@ class C02(Check):
             plain = not any(c in text for c in "\\'\"") and "//" not in text and "/*" not in text
             out.append([text, env, 0, 0, 1 if (i % 25 == 0 and plain) else 0])
             self.hist["block"]["malformed"] = self.hist["block"].get("malformed", 0) + 1
+        # ---- block 7: character soup (exercises the model of Lexer.tokenize: maximal munch, exponents, quotes,
+        # escapes, unknown characters); only I~M is compared
+        alphabet = list("0019aeExXpuL._+-'\"\\ \t<=>&|!#()?:~%/*^,;@$`") + ["\x01", "\x7f", "\n", "\r"]
+        for i in range(700 if quick else 15000):
+            text = "".join(rng.choice(alphabet) for _ in range(rng.randint(0, 9)))
+            out.append([text, [], 0, 0, 0])
+            self.hist["block"]["char-soup"] = self.hist["block"].get("char-soup", 0) + 1
         return out
 
     # ------------------------------------------------------------ encoding for the driver
@@ -277,7 +285,7 @@ class C02(Check):
                 return ["T", ea(n[1]), ea(n[2]), ea(n[3])]
             raise ValueError(n)
         e_ast = ea(ast) if ast else 0
-        return enc([toks, macros, e_ast, 1 if (ast and not subst[0]) else 0])
+        return enc([toks, macros, e_ast, 1 if (ast and not subst[0]) else 0, text.encode("latin-1", "replace")])
 
     # ------------------------------------------------------------ the implementation
     def impl(self, case):
@@ -364,6 +372,10 @@ class C02(Check):
             self.tok_cmp += 1
             if ans[2] != 1 and len(self.tok_bad) < 5:
                 self.tok_bad.append(case[0])
+        if len(ans) > 3:
+            self.lex_cmp += 1
+            if ans[3] != 1:
+                return ["Err", "LexerModelDisagrees"]
         if m[0] == "Ok":
             return ["Ok", m[1], m[2], m[3]]
         if m[1] == "Unsupported":
@@ -606,7 +618,8 @@ class C02(Check):
                 "spec_oracle_dropped_gcc_diagnosed": self.oracle_dropped,
                 "input_distribution": self.hist,
                 "coq_S_vs_python_oracle_mismatches": len(self.s_mismatch),
-                "lexer_output_equals_coq_unparser": {"compared": self.tok_cmp, "different": len(self.tok_bad)}}
+                "lexer_output_equals_coq_unparser": {"compared": self.tok_cmp, "different": len(self.tok_bad)},
+                "lexer_model_vs_Lexer_tokenize_compared": self.lex_cmp}
 
 
 CHECK = C02
